@@ -403,6 +403,12 @@ theorem padding_spec (n : Nat) : (n + padding n) % 2880 = 0 ∧ padding n < 2880
 section FitsFile
 open Moc.Fits
 
+/-- The block and card sizes of the file model are the ones EXTRACTED from `src/deser/fits` by this run. -/
+theorem fits_constants :
+    Params.fitsBlock = 2880 ∧ Params.fitsCard = 80 ∧ Params.fitsPadTo = 2880 ∧
+    (∀ cards, block cards = pad Params.fitsBlock cards.flatten) ∧ endCard.length = Params.fitsCard := by
+  refine ⟨by decide, by decide, by decide, fun _ => rfl, endCard_length⟩
+
 /-- **Emitted FITS is made of 2880-byte blocks**: the file written for any range MOC — two header
     blocks, the data unit, its zero padding — has a length that is a multiple of 2880. -/
 theorem fits_file_blocks (q : Qty) (w depth : Nat) (rs : List Rng) (hd : depth ≤ 255)
